@@ -1269,6 +1269,32 @@ func c06aScriptName(c *Ctx, fn *ssa.Function) {
 						okRoot = true
 					}
 				}
+				// ... or it is read out of the identifier node that becomes the script's name
+				if !okRoot {
+					if ld, isLd := arg.(*ssa.UnOp); isLd {
+						if fa, isFA := ld.X.(*ssa.FieldAddr); isFA && typeIs(fa.X.Type(), "ast", "Identifier") && fieldName(fa.X.Type(), fa.Field) == "Value" && fa.X.Referrers() != nil {
+							for _, r := range *fa.X.Referrers() {
+								if st, isSt := r.(*ssa.Store); isSt && st.Val == fa.X {
+									if fa2, ok2 := st.Addr.(*ssa.FieldAddr); ok2 && fieldName(fa2.X.Type(), fa2.Field) == "Name" {
+										okRoot = true
+									}
+								}
+							}
+						}
+					}
+				}
+				if !okRoot && strings.HasSuffix(at, ".Value") {
+					base := strings.TrimSuffix(at, ".Value")
+					instrs(caller, func(in ssa.Instruction) {
+						st, isSt := in.(*ssa.Store)
+						if !isSt {
+							return
+						}
+						if fa2, ok2 := st.Addr.(*ssa.FieldAddr); ok2 && fieldName(fa2.X.Type(), fa2.Field) == "Name" && typeIs(st.Val.Type(), "ast", "Identifier") && c.term(caller, st.Val) == base {
+							okRoot = true
+						}
+					})
+				}
 				// ... possibly through a constructor that is handed the name and stores it
 				if !okRoot {
 					for _, cj := range callsIn(caller) {
